@@ -83,7 +83,7 @@ fn read_frequencies(src: &mut &[u8]) -> io::Result<Frequencies> {
             for _ in 0..len {
                 let f = order_0::read_frequencies(src)?;
                 frequencies[usize::from(sym)] = f;
-                sym += 1;
+                sym = order_0::next_symbol(sym)?;
             }
         }
 
